@@ -19,6 +19,12 @@ THEOREMS = [
     {"name": "C03b_refuted_without_start_task / C03b_refuted_after_a_fault", "strength": "R",
      "text": "the hypotheses cannot be dropped: a graph without a root rests in running (replayed on the engine; inspection "
              "rejects such a definition); after a non-expression exception escaped a call the state may be stuck"},
+    {"name": "C03e_pausing_canceling_has_active_task / C03e_held_and_idle_is_a_stuck_task / C03e_records_use_item_statuses "
+             "(props/C03e.v)", "strength": "F",
+     "text": "WITH items: pausing/canceling => some task record is active; pausing/canceling with nothing in flight => an "
+             "active record with nothing of it out -- exactly the state of finding D24 (Example d24_is_the_stuck_task); no "
+             "record ever holds requested/scheduled/delayed/resuming/pending/timeout/abandoned under this protocol. NOT "
+             "proved: 'quiescent and not resting => the D24 situation arose'"},
     {"name": "C03d_quiescent_no_active_slot / C03d_quiescence_refuted_by_D24 (props/C03d.v)", "strength": "R",
      "text": "WITH items: at a quiescent state no staged table has an active slot; quiescence => resting is REFUTED by finding "
              "D24 as a theorem (no fault, no wipe, monitor silent, yet canceling forever with nothing in flight)"},
